@@ -76,6 +76,10 @@ def run(ck):
     ck.rule("C02.R3", "per-thread default is written only by set_default/guard drop, never from get_global()", floor=3)
     ck.rule("C02.R4", "global default: single CAS-guarded write, published before INITIALIZED, guarded read", floor=5)
     ck.rule("C02.R5", "EXISTS set by both install paths", floor=2)
+    ck.rule("C02.R12", "every place that looks the thread's dispatcher up to emit or to ask goes through get_default (scoped default, else the global default -- also "
+            "when the thread's own state is already destroyed or in use); none uses get_current, which answers None there", floor=10)
+    ck.rule("C02.R11", "a callsite first hit while no default existed is found again when the global default is installed: the lock-free registration list never "
+            "loses a node (link, CAS, retry with the observed head; as C04.R3)", floor=5)
     ck.rule("C02.R10", "a future wrapped with its own collector is polled with that collector as the thread's default, for exactly the duration of each poll "
             "(set before the inner poll, restored on return and on unwind), in tracing and in tracing-futures alike; the wrappers capture the collector they are given / the current one", floor=4)
     ck.rule("C02.R9", "callsites hit before the global default existed are re-judged by it once it is installed: where registration consults the global default (no_std), set_global_default re-evaluates after publishing (as C01.R14)", floor=1)
@@ -102,6 +106,11 @@ def run(ck):
     from rules import C01
     C01.install_reevaluates(ck, rid="C02.R9")
     with_dispatch_rule(ck, Facts("default"))
+    # ... and that re-evaluation only reaches callsites that are still on the registry's list: a push that loses a racing
+    # first hit must not drop the winner (C04.R3's push / walk rule)
+    from rules import C04 as _C04
+    _C04.r3(ck, Facts("default"), rid="C02.R11")
+    lookup_entry_points(ck)
 
 
 # ---------------------------------------------------------------------- R1
@@ -399,6 +408,32 @@ def r3(ck, F, rid="C02.R3"):
 
 
 # ---------------------------------------------------------------------- R4
+def lookup_entry_points(ck, rid="C02.R12", crates=None):
+    """dispatch::get_current is the `Option` flavour of get_default: no fallback to the global default when the per-thread
+    state is gone (a thread-local destructor at thread exit) or re-entered. Used on an emission path it silently drops the
+    record / answers `disabled` exactly there. Who-may-call: nobody outside tracing-core's dispatch module."""
+    n = 0
+    for cfg in ("default", "log", "consumers"):
+        G = Facts(cfg)
+        if cfg not in ck.configs:
+            ck.configs.append(cfg)
+        for b in G.body_list:
+            if b.path.startswith("tracing_core::dispatch::") or (crates and b.crate not in crates):
+                continue
+            for bb, t in b.calls():
+                p = t["callee"].get("path")
+                if p == D + "get_current":
+                    ck.bad(rid, "%s looks the dispatcher up with get_default" % b.path.split("::{closure")[0][-70:], where(t["sp"]),
+                           "calls dispatch::get_current: on a thread whose per-thread dispatch state is destroyed (an emission from a thread-local destructor) or busy it "
+                           "gets None instead of the global default, and what it was about to emit or ask is dropped", fn=b.path)
+                    n += 1
+                elif p == D + "get_default":
+                    ck.ok(rid, "%s looks the dispatcher up with get_default [%s]" % (b.path.split("::{closure")[0][-70:], cfg), fn=b.path)
+                    n += 1
+    if not n:
+        ck.bad(rid, "dispatcher lookups outside tracing-core", "workspace", "none found")
+
+
 def with_dispatch_rule(ck, F, rid="C02.R10"):
     from rulekit.query import closure_arg
     for crate, P in (("tracing", "tracing::instrument::"), ("tracing-futures", "tracing_futures::")):
